@@ -347,6 +347,14 @@ def sub(base, idx):
         idx = mk("slice", *a_)
         if all(x.op == "const" and x.a[0] is None for x in a_):
             return base  # x[slice(None)]: everything
+    # {True: a, False: b}[bool(c)] is a if c else b
+    if base.op == "dict" and len(base.a) == 2 and idx.op == "call" and callee_name(idx.a[0]) == "builtins.bool" and len(idx.a[1]) == 1:
+        ks = {}
+        for kv in base.a:
+            if kv.a[0].op == "const" and isinstance(kv.a[0].a[0], bool):
+                ks[kv.a[0].a[0]] = kv.a[1]
+        if set(ks) == {True, False}:
+            return ite(idx.a[1][0], ks[True], ks[False])
     # a conditionally chosen index or a conditionally chosen tuple: the choice moves outwards
     if idx.op == "ite" and all(z.op in ("slice", "call", "const") for z in (idx.a[1], idx.a[2])) and any(z.op == "slice" or (z.op == "call" and callee_name(z.a[0]) == "builtins.slice") for z in (idx.a[1], idx.a[2])):
         return ite(idx.a[0], sub(base, idx.a[1]), sub(base, idx.a[2]))
